@@ -433,7 +433,8 @@ class Array:
                 raise ValueError(f"Two different format lengths specified ('{fmt}'). Either specify just one, or two the same length.")
             if token_length is None:
                 token_length = dtype2.bitlength
-        if token_length is None:
+        if not token_length:
+            # No length given, or a length of zero meaning 'not split into groups': use one item per group.
             token_length = self.itemsize
 
         trailing_bit_length = len(self.data) % token_length
